@@ -311,69 +311,7 @@ impl ReplCell {
         }
 
         if self.oracles.c02 {
-            for (e, ce) in &view.ents {
-                let Some(t) = ce.last_tick else { continue };
-                let key = (c, ce.client_bits);
-                if let Some(&prev) = x.prev_last_tick.get(&key) {
-                    if t < prev {
-                        return Err(self.v(
-                            "C02",
-                            "confirmed-tick-decreased",
-                            format!("client c{c} entity {}: confirmed tick {prev} -> {t}", fmt_bits(*e)),
-                        ));
-                    }
-                }
-                x.prev_last_tick.insert(key, t);
-                let Some(snap) = x.sim.snaps.get(&t) else {
-                    return Err(self.v(
-                        "C02",
-                        "unknown-confirmed-tick",
-                        format!("client c{c} entity {}: confirmed tick {t} was never a server tick", fmt_bits(*e)),
-                    ));
-                };
-                let server = snap.get(e);
-                for (tag, val) in &ce.comps {
-                    if *tag == TP || *tag == TO {
-                        continue;
-                    }
-                    let sv = server.and_then(|s| s.get(tag));
-                    if sv != Some(val) {
-                        return Err(self
-                            .v(
-                                "C02",
-                                "value-mismatch",
-                                format!(
-                                    "client c{c} entity {} confirmed tick {t}: {} is {} on the client, the server had {} at that tick",
-                                    fmt_bits(*e),
-                                    ctag_name(*tag),
-                                    val.show(),
-                                    sv.map(|v| v.show()).unwrap_or("nothing".into())
-                                ),
-                            )
-                            .feat(format!("comp:{}", ctag_name(*tag))));
-                    }
-                }
-                if let Some(s) = server {
-                    for tag in s.keys() {
-                        if *tag == TP || *tag == TO {
-                            continue;
-                        }
-                        if !ce.comps.contains_key(tag) {
-                            return Err(self
-                                .v(
-                                    "C02",
-                                    "missing-component",
-                                    format!(
-                                        "client c{c} entity {} confirmed tick {t}: the server had {} at that tick, the client has none",
-                                        fmt_bits(*e),
-                                        ctag_name(*tag)
-                                    ),
-                                )
-                                .feat(format!("comp:{}", ctag_name(*tag))));
-                        }
-                    }
-                }
-            }
+            x.sim.check_confirmed(c, &view).map_err(|v| self.own(v))?;
         }
 
         if self.oracles.c16 {
